@@ -15,6 +15,21 @@ fn response<const L: usize>() -> (String, [u8; L]) {
   (unsafe { String::from_utf8_unchecked(b.to_vec()) }, b)
 }
 
+/// What `searchlite_search` does with the output buffer for valid handle/query
+/// arguments: the argument guard (which may already return), then - the search
+/// itself does not look at the buffer (checked textually by the slice
+/// generator) - the tail that copies the response.
+unsafe fn search_buffer_path(encoded: String, out: *mut c_char, cap: usize) -> usize {
+  let dangling = std::ptr::NonNull::<IndexHandle>::dangling().as_ptr();
+  let q = b"a\0";
+  let g = slice_search_guard(dangling, q.as_ptr() as *const c_char, 10, std::ptr::null(), std::ptr::null(), 0, out, cap);
+  if g != usize::MAX {
+    std::mem::forget(encoded);
+    return g;
+  }
+  slice_search_tail(encoded, out, cap)
+}
+
 /// Runs the sliced tail of `searchlite_search` against a heap buffer of exactly
 /// CAP bytes (CBMC's pointer checks play the role of a guard page).
 fn tail_case<const L: usize, const CAP: usize>() {
@@ -27,7 +42,7 @@ fn tail_case<const L: usize, const CAP: usize>() {
     unsafe { *p.add(i) = 0xAA };
     i += 1;
   }
-  let ret = unsafe { slice_search_tail(encoded, p as *mut c_char, CAP) };
+  let ret = unsafe { search_buffer_path(encoded, p as *mut c_char, CAP) };
   if CAP == 0 {
     assert!(ret == 0, "C26: capacity 0 must return 0");
     return;
@@ -79,7 +94,7 @@ fn c26_search_tail_bounded_copy() {
 fn c26_search_tail_null_buffer() {
   let (encoded, _b) = response::<3>();
   let cap: usize = kani::any();
-  let ret = unsafe { slice_search_tail(encoded, std::ptr::null_mut(), cap) };
+  let ret = unsafe { search_buffer_path(encoded, std::ptr::null_mut(), cap) };
   assert!(ret == 0, "C26: null buffer must return 0");
   kani::cover!(cap > 3, "capacity larger than the response");
 }
@@ -97,10 +112,17 @@ fn c26_null_arguments_rejected() {
   let dangling = std::ptr::NonNull::<IndexHandle>::dangling().as_ptr();
   let q = b"a\0";
   unsafe {
-    assert!(slice_search_guard(std::ptr::null_mut(), q.as_ptr() as *const c_char) == 0, "C26: null handle must return 0");
-    assert!(slice_search_guard(dangling, std::ptr::null()) == 0, "C26: null query must return 0");
-    assert!(slice_search_guard(std::ptr::null_mut(), std::ptr::null()) == 0, "C26: null handle and query must return 0");
-    assert!(slice_search_guard(dangling, q.as_ptr() as *const c_char) == usize::MAX, "guard rejected valid arguments");
+    let mut out = [0x55u8; 4];
+    let o = out.as_mut_ptr() as *mut c_char;
+    let cap: usize = kani::any();
+    kani::assume(cap <= 4);
+    let n = std::ptr::null();
+    assert!(slice_search_guard(std::ptr::null_mut(), q.as_ptr() as *const c_char, 10, n, n, 0, o, cap) == 0, "C26: null handle must return 0");
+    assert!(slice_search_guard(dangling, n, 10, n, n, 0, o, cap) == 0, "C26: null query must return 0");
+    assert!(slice_search_guard(std::ptr::null_mut(), n, 10, n, n, 0, o, cap) == 0, "C26: null handle and query must return 0");
+    assert!(out[0] == 0x55 && out[3] == 0x55, "C26: output buffer touched by a rejected call");
+    let g = slice_search_guard(dangling, q.as_ptr() as *const c_char, 10, n, n, 0, o, 4);
+    assert!(g == usize::MAX || g == 0, "C26: argument guard returned a length without running the search");
     searchlite_index_close(std::ptr::null_mut());
   }
   kani::cover!(true, "guards executed");
